@@ -11,6 +11,7 @@ import (
 	"google.golang.org/grpc/codes"
 
 	"github.com/smart-core-os/sc-api/go/types"
+	"github.com/smart-core-os/sc-golang/pkg/resource"
 )
 
 // C03 — a subscriber's folded view converges to the store's state (DESIGN.md §5 C03).
@@ -54,6 +55,9 @@ type convWorld struct {
 	subs    []*subscriber
 	probe   *probe
 	cfg     resCfg
+	// a backpressured subscription that is never read was opened before everything else (Value only)
+	stuck       bool
+	stuckCancel context.CancelFunc
 }
 
 func convRun(w *World, coll bool) {
@@ -79,6 +83,19 @@ func convRun(w *World, coll bool) {
 		cw.probe = startProbe(w, cw.r)
 	}
 
+	if !coll && t.Flag(1, 6) {
+		// a neighbour that subscribed with backpressure and never reads: every Value write then runs into its send bound
+		// (fake time passes whenever nothing else can run) and reports an error - after the commit. The subscribers that
+		// came later and keep receiving must not be the worse for it: a lossy one is always ready for the most recent
+		// value. (Backpressured ones that are behind at that moment are not owed the event; they are not judged here.)
+		cw.stuck = true
+		sctx, scancel := context.WithCancel(context.Background())
+		cw.stuckCancel = scancel
+		_ = cw.r.val.Pull(sctx, resource.WithBackpressure(true))
+		w.wait()
+		w.IdleAdvance, w.IdleAdvanceN = 6*time.Second, 40
+		w.Fault("stuck-neighbour")
+	}
 	nw := 1 + t.Choose(3)
 	for i := 0; i < nw; i++ {
 		wr := &writer{name: fmt.Sprintf("w%d", i)}
@@ -160,6 +177,9 @@ func convRun(w *World, coll bool) {
 	}
 	if cw.probe != nil {
 		cw.probe.cancel()
+	}
+	if cw.stuckCancel != nil {
+		cw.stuckCancel()
 	}
 	w.Run()
 }
@@ -248,6 +268,12 @@ func (cw *convWorld) check(t *Task) {
 			committedV[h.Res.Msg.V] = true
 		}
 	}
+	if cw.stuck {
+		// (a write that ran into the send bound reports an error although it was committed)
+		for _, h := range all {
+			committedV[h.Op.Val.V] = true
+		}
+	}
 	for _, v := range cw.cfg.Initial {
 		committedV[v.V] = true
 	}
@@ -255,7 +281,7 @@ func (cw *convWorld) check(t *Task) {
 		committedV[cw.cfg.InitialVal.V] = true
 	}
 	for _, s := range cw.subs {
-		if !s.opened {
+		if !s.opened || (cw.stuck && s.cfg.Backpressure) {
 			continue
 		}
 		t.Note("%s[%s] pull@[%d,%d] events: %s", s.name, s.cfg, s.pullInvoked, s.pullReturn, eventsString(s.events))
